@@ -8,7 +8,7 @@ ATOMS = ['0', '1', '2', '0.0', '1.5', '""', '"a"', '#t', '#f', 'x', 'top.cnt',
 OPS = ['if', 'do', '+', '*', '&&', '||']
 NEIGH = ['-', '=', '!', 'list', 'print', '>', 'first']
 
-SETUP = ['(define x 3)', '(define y 0)', '(define s "")', '(define xs (list 1 2))', "(defmacro q8 [e] `(list ',e ,e))", '(define gs "lk")']
+SETUP = ['(define x 3)', '(define y 0)', '(define s "")', '(define xs (list 1 2))', "(defmacro q8 [e] `(list ',e ,e))", '(define gs "lk")', '(define xf 0.3)']
 PROBE = '(list x y INDEX)'
 
 
@@ -104,6 +104,13 @@ def gen_sensitive(rng):
         other = rng.choice(['xs', '(list 1)', "'(\"clk\")", '(list)', 's', 'x'])
         args = rng.choice([[other] + lits, lits + [other], lits[:1] + [other] + lits[1:]])
         return rng.choice(['(+ ' + ' '.join(args) + ')', '(length (+ ' + ' '.join(args) + '))'])
+    if k == '*' and rng.random() < 0.3:
+        # a product inside a product is a product of its own: the grouping decides how floats round
+        inner = rng.choice(['(* xf 5)', '(* 0.1 xf)', '(* xf xf 3)', '(* x 0.1)', '(* 2 xf)'])
+        outer = [rng.choice(['0.1', '0.7', '3', 'xf', '1.5'])] + [inner] + [rng.choice(['0.1', '7', 'xf'])] * rng.randint(0, 1)
+        if rng.random() < 0.3:
+            outer = [inner] + outer[:1]
+        return '(* ' + ' '.join(outer) + ')'
     if k in ('+', '*'):
         pre = [rng.choice(NUMS) for _ in range(rng.randint(0, 3))]
         post = [rng.choice(DYN + ['"a"', '""', '(list 1)']) for _ in range(rng.randint(0, 2))]
